@@ -457,7 +457,7 @@ class ShapesDriver:
             stats["ok"] = stats.get("ok", 0) + 1
             if not unit_ok:
                 mm.append(self._mm("C04", "unit:%s" % shape, "%s returned a different unit object" % case))
-            want = mag * ratio
+            want = Fraction(mag) * ratio
             if not close(val, want, 1e-12):
                 mm.append(self._mm("C04", "value:%s" % shape, "%s: %s*u gave %r, declarations give %s (ratio off by %.6g)" % (
                     case, mag, val, float(want), float(val) / float(want) if val else 0.0)))
@@ -473,15 +473,16 @@ class ShapesDriver:
         from decimal import Decimal
         mm = []
         for k in (-2, 0, 0.25, Decimal("1.5")):
-            o, x, _ = self._convert((k * mag) * u, v)
+            o, x, _ = self._convert((mag * u) * k, v)
             if o != "ok":
-                mm.append(self._mm("C05", "linear:outcome:%s" % shape, "%s converts for %s but %s for %s" % (case, mag, o, k * mag)))
+                mm.append(self._mm("C05", "linear:outcome:%s" % shape, "%s converts for %s but %s for %s times that" % (case, mag, o, k)))
             elif not close(x, float(k) * float(val), 1e-12):
                 mm.append(self._mm("C05", "linear:%s" % shape, "%s: conv(%s*q)=%r but %s*conv(q)=%r" % (case, k, x, k, float(k) * float(val))))
             elif isinstance(k, Decimal) and not isinstance(x, Decimal):
                 pass  # magnitude kinds are C03's subject
         o, x, _ = self._convert(mag * u, u)
-        if o != "ok" or x != mag:
+        # (a Decimal magnitude on a prefixed unit goes through the float value of the prefix and comes back 2e-17 off: rounding)
+        if o != "ok" or not close(x, mag, 1e-12):
             mm.append(self._mm("C05", "self:%s" % shape_class(ev["u"], self.sys["bdim"]), "%s*u in its own unit gave %s %r" % (mag, o, x)))
         o, x, _ = self._convert(val * v, u)
         if o == "ok":
@@ -532,6 +533,9 @@ def run_shapes(prop, tier, seed):
         raise MachineryError("no cases exported")
     hists = [[c] for c in cases]
     if prop in ("C04", "C05"):
+        # the enumeration uses int magnitudes; a seeded subset is also asked with float and Decimal magnitudes
+        rk = random.Random(seed + 7)
+        hists += [[dict(c, mk=k)] for c in rk.sample(cases, min(len(cases), 1500 if tier == "quick" else 12000)) for k in ("float", "Decimal")]
         if prop == "C05":
             tr = tlc_shapes("triples", cfg="MC_ConvTriples.cfg", maxe1=2, maxe2=1)
             require_ok(tr, "MC_ConvTriples")
